@@ -97,13 +97,19 @@ def is_fractional(spec: dict) -> bool:
 
 
 def build_real(spec: dict):
-    """Real deepali grid of a spec; 'derive' applies the real derivation call (downsample / resample)."""
+    """Real deepali grid of a spec; 'derive' applies the real derivation call."""
     g = rg.real_grid({k: v for k, v in spec.items() if k != "derive"})
     d = spec.get("derive")
     if d == "downsample":
         g = g.downsample()
+    elif d == "upsample":
+        g = g.upsample()
     elif isinstance(d, dict) and "resample" in d:
         g = g.resample(tuple(d["resample"]))
+    elif isinstance(d, dict) and "resize" in d:
+        g = g.resize(tuple(d["resize"]))
+    elif isinstance(d, dict) and "cube_grid" in d:
+        g = g.cube().grid(size=tuple(d["cube_grid"]), align_corners=bool(d["ac"]))
     return g
 
 
@@ -115,6 +121,18 @@ def build_ref(spec: dict) -> RefGrid:
     d = spec.get("derive")
     if d == "downsample":
         r = rg.resized(r, r.z / 2.0)
+    elif d == "upsample":
+        r = rg.resized(r, r.z * 2.0)
+    elif isinstance(d, dict) and "resize" in d:
+        r = rg.resized(r, np.asarray(d["resize"], dtype=np.float64))
+    elif isinstance(d, dict) and "cube_grid" in d:
+        # grid of another size (and flag) over the SAME cube: cube extent (n-1)s | ns of the source kept
+        z = np.asarray(d["cube_grid"], dtype=np.float64)
+        out = r.copy()
+        ce = r.cube_extent()
+        out.z, out.ac = z, bool(d["ac"])
+        out.s = ce / (z - 1) if out.ac else ce / z
+        r = out
     elif isinstance(d, dict) and "resample" in d:
         s_new = np.asarray(d["resample"], dtype=np.float64)
         out = r.copy()
@@ -137,10 +155,14 @@ def b_menu(spec: dict, seed: int):
     if is_fractional(spec):
         # second grids of a fractional-size grid are built directly with the (fractional) float size=
         base = {"size": rA.z.tolist(), "spacing": rA.s.tolist(), "direction": rA.R.tolist(), "ac": rA.ac}
-        return [
+        out = [
             ("shift", dict(base, center=(rA.c + rA.R @ (rA.s * frac)).tolist())),
             ("rot", dict(base, direction=(gen @ rA.R).tolist(), center=(rA.c + np.array([1.5, -2.25, 0.75][:D])).tolist())),
         ]
+        if spec.get("derive") == "downsample":
+            # the grid it was derived from: another pyramid level over the same domain
+            out.append(("sd-parent", {k: v for k, v in spec.items() if k != "derive"}))
+        return out
     base = {"size": spec["size"], "spacing": spec["spacing"], "direction": spec["direction"], "ac": spec["ac"]}
     out = []
     out.append(("same", dict(base, origin=spec["origin"])))
@@ -153,6 +175,13 @@ def b_menu(spec: dict, seed: int):
     out.append(("ac", dict(base, origin=spec["origin"], ac=not spec["ac"])))
     if min(spec["size"]) == 1:
         out = [o for o in out if o[0] in ("shift", "rot", "spacing")]
+    else:
+        # second grids over the SAME world domain (same cube) with other sampling: resized, upsampled, and the
+        # same cube sampled with the other align_corners flag
+        other = [_SIZE_SWAP[n] for n in spec["size"]]
+        out.append(("sd-resize", dict(base, origin=spec["origin"], derive={"resize": other})))
+        out.append(("sd-up", dict(base, origin=spec["origin"], derive="upsample")))
+        out.append(("sd-flag", dict(base, origin=spec["origin"], derive={"cube_grid": other, "ac": not spec["ac"]})))
     return out
 
 
@@ -160,7 +189,7 @@ def bounds(tier):
     L = lattice(tier, 0)
     return {
         "lattice_grids": len(L),
-        "second_grids_per_grid": 6,
+        "second_grids_per_grid": "6 + 3 same-domain grids (resize, upsample, same cube with the other flag)",
         "fractional_size_grids": sum(1 for s in L if is_fractional(s)),
         "grid_pairs": sum(len(b_menu(s, 0)) for s in L),
         "frames_per_pair": 8,
@@ -459,7 +488,7 @@ def check_edge(sink: Sink, pair: Pair, src, dst, tg_form: str, wrappers: bool = 
     exp_fn = lambda a: pair.mapp(src, dst, a)  # noqa: E731
     expv_fn = lambda a: pair.mapv(src, dst, a)  # noqa: E731
     tol0 = pair.tolp(src, dst, x32)
-    full = tg_form in ("none", "other")
+    full = tg_form in ("none", "other")  # "other-light": second grid, baseline forms only
     nviol = len(sink.out)
 
     def emit(fn, kind, detail, form=None):
@@ -1202,6 +1231,13 @@ def run_pairs(sink: Sink, spec: dict, tier: str, seed: int):
         pair = Pair(spec, specB, bname)
         if pair.err is not None:
             sink.violation(f"C01/construct/raises={type(pair.err).__name__}", pair.case(sub="construct"), exc_text(pair.err), size=0)
+            continue
+        if bname.startswith("sd-"):
+            # same-domain second grid: the two-grid edges in both directions (matrices, points, vectors)
+            for src in pair.nodes:
+                for dst in pair.nodes:
+                    if src[0] != dst[0]:
+                        check_edge(sink, pair, src, dst, "other-light", wrappers=False)
             continue
         if bi == 0:
             check_anchors(sink, pair)
